@@ -10,7 +10,8 @@ STMT_REQUESTS = [
     "kvstore/batch_writer.go:BatchedWriter.startBatchWriter", "kvstore/batch_writer.go:BatchedWriter.StopBatchWriter",
     "kvstore/batch_writer.go:BatchedWriter.Enqueue", "kvstore/batch_writer.go:BatchedWriter.Flush",
     "kvstore/batch_writer.go:BatchedWriter.runBatchWriter", "kvstore/batch_collector.go:newBatchCollector",
-    "kvstore/batch_collector.go:BatchCollector.Add", "kvstore/batch_collector.go:BatchCollector.Commit"]
+    "kvstore/batch_collector.go:BatchCollector.Add", "kvstore/batch_collector.go:BatchCollector.Commit",
+    "runtime/timeutil/timeutil.go:CleanupTimer"]
 
 
 def regen_stmts(ctx):
@@ -50,10 +51,10 @@ SPEC = {
                  "C08_late_enqueue_backs_out", "C08_unbuffered_queue_empty", "C08_no_block_forever_partial", "C08_waits_for_ranked", "C08_statement_safety",
                  "C08_no_block_forever", "C08_enqueue_send_unblocked_by_writer", "C08_stop_wait_released", "C08_statement_holds",
                  "C08_old_racing_enqueue_witness", "C08_old_stop_waits_witness", "C08_old_no_block_forever_witness",
-                 "C08_old_statement_witness", "C08_skeleton_Enqueue", "C08_skeleton_startBatchWriter",
+                 "C08_old_statement_witness", "C08_loop_condition_order_witness", "C08_skeleton_Enqueue", "C08_skeleton_startBatchWriter",
                  "C08_skeleton_StopBatchWriter", "C08_skeleton_Flush", "C08_skeleton_runBatchWriter",
                  "C08_skeleton_collector_Add", "C08_skeleton_collector_Commit",
-                 "C08_skeleton_type_BatchedWriter", "C08_skeleton_type_Options", "C08_skeleton_type_BatchCollector", "C08_stmts_var_defaultOptions", "C08_stmts_NewBatchedWriter", "C08_stmts_Options_apply", "C08_stmts_WithQueueSize", "C08_stmts_WithBatchSize", "C08_stmts_WithBatchTimeout", "C08_stmts_BatchedWriter_startBatchWriter", "C08_stmts_BatchedWriter_StopBatchWriter", "C08_stmts_BatchedWriter_Enqueue", "C08_stmts_BatchedWriter_Flush", "C08_stmts_BatchedWriter_runBatchWriter", "C08_stmts_newBatchCollector", "C08_stmts_BatchCollector_Add", "C08_stmts_BatchCollector_Commit"],
+                 "C08_skeleton_type_BatchedWriter", "C08_skeleton_type_Options", "C08_skeleton_type_BatchCollector", "C08_stmts_var_defaultOptions", "C08_stmts_NewBatchedWriter", "C08_stmts_Options_apply", "C08_stmts_WithQueueSize", "C08_stmts_WithBatchSize", "C08_stmts_WithBatchTimeout", "C08_stmts_BatchedWriter_startBatchWriter", "C08_stmts_BatchedWriter_StopBatchWriter", "C08_stmts_BatchedWriter_Enqueue", "C08_stmts_BatchedWriter_Flush", "C08_stmts_BatchedWriter_runBatchWriter", "C08_stmts_newBatchCollector", "C08_stmts_BatchCollector_Add", "C08_stmts_BatchCollector_Commit", "C08_stmts_CleanupTimer"],
     "trusted_base": ["hand-written protocol model Hive/Model/BatchWriter.lean of kvstore/batch_writer.go + batch_collector.go, tied by (a) the trace predicate evaluated on traces of the real code, (b) the witness schedules replayed on the real code with trace equality, (c) regenerated synchronisation skeletons, type facts and normalised statements (guards, arguments, constants) of every anchored function",
                      "Go semantics of sync.Once / Mutex / WaitGroup / atomics / buffered and unbuffered channels / select as written in the model",
                      "Go toolchain, compiled Lean driver, harness trace recorder (one mutex-ordered event log)"],
